@@ -14,7 +14,7 @@ From Nexus Require Import Router.BrokerProofs Router.BrokerExamples.
     the publisher's session details have them); the values are the
     publisher's own. *)
 Theorem C12_event_disclose_iff : forall cfg lookup now b pg pub req opts topic args kw b' pg' o,
-    broker_wf b -> lookup_ok lookup -> pub_accepted cfg opts topic ->
+    broker_wf b -> lookup_ok lookup -> pub_accepted cfg pub opts topic ->
     publish cfg lookup now b pg pub req opts topic args kw = (b', pg', o) ->
     forall r id pubid d a k', In (r, REvent id pubid d a k') o ->
     exists rs, lookup r = Some rs /\
@@ -29,11 +29,12 @@ Theorem C12_event_disclose_iff : forall cfg lookup now b pg pub req opts topic a
 Proof. exact event_disclose_iff. Qed.
 Print Assumptions C12_event_disclose_iff.
 
-(** an EVENT's details have no other keys *)
-Theorem C12_event_details_keys : forall topic st disc pub recv k,
-    dhas (event_details topic st disc pub recv) k = true ->
+(** an EVENT's details have no other keys (besides the passthru ones) *)
+Theorem C12_event_details_keys : forall opts topic st disc pub recv k,
+    dhas (ppt_part opts ++ event_details topic st disc pub recv) k = true ->
+    In k ["ppt_scheme"; "ppt_serializer"; "ppt_cipher"; "ppt_keyid"] \/
     k = "topic" \/ k = "publisher" \/ k = "publisher_authid" \/ k = "publisher_authrole".
-Proof. exact event_details_keys. Qed.
+Proof. exact event_dict_keys. Qed.
 Print Assumptions C12_event_details_keys.
 
 (** disclose_me requested, realm forbids: broker unchanged, no EVENT, the
@@ -41,6 +42,7 @@ Print Assumptions C12_event_details_keys.
     acknowledged and nothing otherwise *)
 Theorem C12_disallowed_disclose_refused : forall cfg lookup now b pg pub req opts topic args kw,
     valid_uri (c_strict cfg) "" topic = true ->
+    publish_aborts cfg pub opts topic = false ->   (* the passthru violation is checked first *)
     opt_bool opts "disclose_me" = true -> c_disclose cfg = false ->
     publish cfg lookup now b pg pub req opts topic args kw =
     (b, pg, if opt_bool opts "acknowledge"
@@ -49,24 +51,26 @@ Proof. exact disallowed_disclose_refused. Qed.
 Print Assumptions C12_disallowed_disclose_refused.
 
 Example C12_ex_refused :
-  valid_uri (c_strict ex_cfg_nodisclose) "" "a.b" = true /\ opt_bool ex_opts "disclose_me" = true /\
+  valid_uri (c_strict ex_cfg_nodisclose) "" "a.b" = true /\
+  publish_aborts ex_cfg_nodisclose ex_pub ex_opts "a.b" = false /\ opt_bool ex_opts "disclose_me" = true /\
   c_disclose ex_cfg_nodisclose = false.
 Proof. repeat split. Qed.
 
 (** The EVENT delivered to r through subscription (id, t, k) is the same in
     any two brokers in which r holds it — whatever other subscribers and
     subscriptions exist, in whatever order — and is this function of
-    (topic, kind, disclose flag, publisher, r's session). *)
+    (the publication's passthru options, topic, kind, disclose flag,
+    publisher, r's session). *)
 Theorem C12_event_details_recipient_only :
   forall cfg lookup now1 now2 b1 b2 pg pub req opts topic args kw b1' pg1 o1 b2' pg2 o2 r id t k,
-    broker_wf b1 -> broker_wf b2 -> lookup_ok lookup -> pub_accepted cfg opts topic ->
+    broker_wf b1 -> broker_wf b2 -> lookup_ok lookup -> pub_accepted cfg pub opts topic ->
     holds_sig b1 r id t k -> holds_sig b2 r id t k ->
     publish cfg lookup now1 b1 pg pub req opts topic args kw = (b1', pg1, o1) ->
     publish cfg lookup now2 b2 pg pub req opts topic args kw = (b2', pg2, o2) ->
     (forall pubid d a k', In (r, REvent id pubid d a k') o1 <-> In (r, REvent id pubid d a k') o2) /\
     (forall pubid d a k' rs, In (r, REvent id pubid d a k') o1 -> lookup r = Some rs ->
         pubid = (pg + 1)%N /\ a = args /\ k' = kw /\
-        d = event_details topic (is_pattern k) (opt_bool opts "disclose_me") pub (Some rs)).
+        d = ppt_part opts ++ event_details topic (is_pattern k) (opt_bool opts "disclose_me") pub (Some rs)).
 Proof. exact event_details_recipient_only. Qed.
 Print Assumptions C12_event_details_recipient_only.
 
@@ -74,7 +78,7 @@ Print Assumptions C12_event_details_recipient_only.
     session 10 / 12 (without) receive the same publication; only 11's EVENTs
     carry the publisher *)
 Example C12_ex_disclose :
-  broker_wf ex_b /\ lookup_ok ex_lookup /\ pub_accepted ex_cfg ex_opts "a.b" /\
+  broker_wf ex_b /\ lookup_ok ex_lookup /\ pub_accepted ex_cfg ex_pub ex_opts "a.b" /\
   holds_sig ex_b 11 4 "a" MPrefix /\
   snd (publish ex_cfg ex_lookup 5 ex_b 100 ex_pub 7 ex_opts "a.b" [vnat 1] []) =
   [(10, REvent 3 101 [] [vnat 1] []);
